@@ -259,10 +259,11 @@ namespace Mont
 def u? (P : EPt F) : Option F :=
   if (1 : F) - P.y = 0 then none else some (((1 : F) + P.y) * ((1 : F) - P.y)⁻¹)
 
-/-- `v = c · (1 + y) / (x - x·y)`; undefined for `x = 0` -/
+/-- `v = c · (1 + y) / (x - x·y)`; `x - x·y = 0` holds on the curve only for the identity (no affine
+Montgomery coordinates) and for the point of order 2, `(0, -1)`, which is `(u, v) = (0, 0)` -/
 def v? (c : F) (P : EPt F) : Option F :=
   let w := P.x - P.x * P.y
-  if w = 0 then none else some (((1 : F) + P.y) * w⁻¹ * c)
+  if w = 0 then (if P = E.zero then none else some 0) else some (((1 : F) + P.y) * w⁻¹ * c)
 
 /-- `none` models the encoder's panic -/
 def encodeCompressed (io : FieldIO F) (len : Nat) (P : EPt F) : Option (List Nat) :=
@@ -437,6 +438,155 @@ def decode (p len : Nat) (bs : List Nat) : Option (List Nat) :=
 def encode (len : Nat) (cs : List Nat) : List Nat := (cs.map (beBytes len)).flatten
 
 end GT
+
+/-! ## what the bytes of a fixed-length encoding denote, independently of the accept / reject rules
+
+`Layout.canon` re-writes a byte string of the right length with every coordinate reduced modulo `p`
+and the flag bits kept.  The driver uses it as the *denotation* oracle of the property ("the element
+obtained by reading the bytes modulo the field order"): an implementation that accepts `bs` and
+returns `P` reads the bytes as the format says iff `encode P = canon bs`. -/
+
+structure Layout where
+  /-- number of tag bytes in front (SEC1: 1) -/
+  hdr : Nat
+  bigEndian : Bool
+  /-- bytes per coordinate -/
+  len : Nat
+  /-- number of coordinates -/
+  chunks : Nat
+  /-- flag bits at the top of the first coordinate -/
+  flagBits : Nat
+  /-- a set top bit in a flag-less coordinate has no meaning (25519 field decoding refuses it) -/
+  strictTop : Bool
+
+namespace Layout
+
+def canonAux (L : Layout) (p : Nat) : Bool → List (List Nat) → Option (List Nat)
+  | _, [] => some []
+  | first, c :: cs =>
+    let v := if L.bigEndian then beNat c else leNat c
+    let wr := fun (n : Nat) => if L.bigEndian then beBytes L.len n else leBytes L.len n
+    let fb := if first then L.flagBits else 0
+    let cut := 2 ^ (8 * L.len - fb)
+    if fb = 0 ∧ L.strictTop = true ∧ 2 ^ (8 * L.len - 1) ≤ v then none
+    else match canonAux L p false cs with
+      | none => none
+      | some rest => some (wr (v / cut * cut + v % cut % p) ++ rest)
+
+/-- `none`: wrong length, or a coordinate the format gives no meaning to -/
+def canon (L : Layout) (p : Nat) (bs : List Nat) : Option (List Nat) :=
+  if bs.length ≠ L.hdr + L.chunks * L.len then none
+  else (canonAux L p true (Bls.chunks L.chunks L.len (bs.drop L.hdr))).map fun body => bs.take L.hdr ++ body
+
+end Layout
+
+/-! ## the constants the Go encoders hard-code, as the model uses them
+
+`Props/C13.lean` proves `enc_constants_match_source`: the tables below are exactly the constants the
+translator extracts from the encoder / decoder functions of /repo (`Gen/EncConsts.lean`), and
+`enc_constants_used_by_model`: the model's arithmetic is written with the same constants. -/
+namespace Consts
+
+/-- SEC1 tag bytes -/
+def tagEven : Nat := 2
+def tagOdd : Nat := 3
+def tagUncompressed : Nat := 4
+/-- `y.Bytes()[0] & 1`: parity of a coordinate -/
+def parityMask : Nat := 1
+/-- pasta / edwards25519: bit `signShift` of the last byte is the sign flag … -/
+def signShift : Nat := 7
+/-- … and `coordMask` keeps the coordinate bits of that byte -/
+def coordMask : Nat := 0x7f
+/-- edwards25519 `Fp.SetBytes` refuses a set top bit -/
+def topBitMask : Nat := 0x80
+/-- BLS12-381 (ZCash): compressed / infinity / sort flag = bit 7 / 6 / 5 of the first byte -/
+def blsC : Nat := 7
+def blsI : Nat := 6
+def blsS : Nat := 5
+/-- the coordinate bits of the first byte -/
+def blsBodyMask : Nat := 0x1f
+def byteMask : Nat := 0xff
+/-- bytes per coordinate -/
+def len256 : Nat := 32
+def lenBls : Nat := 48
+
+/-- constants of one Go function by role (sorted, without duplicates), as emitted by the translator -/
+structure Facts where
+  lens : List Nat := []
+  cmps : List Nat := []
+  masks : List Nat := []
+  shifts : List Nat := []
+  idx : List Nat := []
+  vals : List Nat := []
+  sizes : List Nat := []
+  deriving DecidableEq, Repr
+
+def sec1FromCompressed : Facts :=
+  { lens := [len256 + 1], cmps := [tagEven, tagOdd], masks := [parityMask], idx := [0, 1], sizes := [len256] }
+def sec1FromUncompressed : Facts :=
+  { lens := [2 * len256 + 1], cmps := [tagUncompressed], idx := [0, 1, len256 + 1], sizes := [len256] }
+def sec1ToCompressed : Facts :=
+  { masks := [parityMask], idx := [0, 1], vals := [tagEven], sizes := [len256 + 1] }
+def sec1ToUncompressed : Facts :=
+  { idx := [0, 1, len256 + 1], vals := [tagUncompressed], sizes := [2 * len256 + 1] }
+
+def pastaFromCompressed : Facts :=
+  { lens := [len256], masks := [parityMask, coordMask], shifts := [signShift], idx := [0, len256 - 1], sizes := [len256] }
+def pastaFromUncompressed : Facts := { lens := [2 * len256], idx := [len256] }
+def pastaToCompressed : Facts :=
+  { masks := [parityMask], shifts := [signShift], idx := [0, len256 - 1], sizes := [len256] }
+def pastaToUncompressed : Facts := { sizes := [2 * len256] }
+
+def edFromCompressed : Facts :=
+  { lens := [len256], masks := [coordMask], shifts := [signShift], idx := [len256 - 1], sizes := [len256] }
+def edFromUncompressed : Facts := { lens := [2 * len256], idx := [len256] }
+def edToCompressed : Facts := { shifts := [signShift], idx := [len256 - 1] }
+def edToUncompressed : Facts := {}
+def edFpSetBytes : Facts := { lens := [len256], masks := [topBitMask], idx := [len256 - 1], sizes := [len256] }
+
+def montFromCompressed : Facts := { lens := [len256] }
+def montFromUncompressed : Facts := { lens := [2 * len256], idx := [len256] }
+def montToCompressed : Facts := { sizes := [len256] }
+def montToUncompressed : Facts := { sizes := [2 * len256] }
+
+def g1FromCompressed : Facts :=
+  { lens := [lenBls], masks := [1, blsBodyMask], shifts := [blsS, blsI, blsC], idx := [0],
+    vals := [blsBodyMask, byteMask], sizes := [lenBls] }
+def g1FromUncompressed : Facts :=
+  { lens := [2 * lenBls], masks := [1, blsBodyMask], shifts := [blsI], idx := [0, lenBls], sizes := [2 * lenBls] }
+def g1ToCompressed : Facts := { masks := [1], shifts := [blsS, blsI, blsC], idx := [0] }
+def g1ToUncompressed : Facts := { shifts := [blsS, blsI, blsC], idx := [0] }
+def g2FromCompressed : Facts :=
+  { lens := [2 * lenBls], masks := [1, blsBodyMask], shifts := [blsS, blsI, blsC], idx := [0, lenBls, 2 * lenBls],
+    vals := [blsBodyMask, byteMask], sizes := [2 * lenBls] }
+def g2FromUncompressed : Facts :=
+  { lens := [4 * lenBls], masks := [1, blsBodyMask], shifts := [blsI], idx := [0, lenBls, 2 * lenBls, 3 * lenBls],
+    sizes := [4 * lenBls] }
+/-- G2 writes the compressed flag as the constant `1 << 7` -/
+def g2ToCompressed : Facts := { masks := [1, 2 ^ blsC], shifts := [blsS, blsI], idx := [0] }
+def g2ToUncompressed : Facts := { shifts := [blsI], idx := [0] }
+
+/-- every function the translator reads, with the constants the model expects there -/
+def expected : List (String × Facts) := [
+  ("k256_FromCompressed", sec1FromCompressed), ("k256_FromUncompressed", sec1FromUncompressed),
+  ("k256_ToCompressed", sec1ToCompressed), ("k256_ToUncompressed", sec1ToUncompressed),
+  ("p256_FromCompressed", sec1FromCompressed), ("p256_FromUncompressed", sec1FromUncompressed),
+  ("p256_ToCompressed", sec1ToCompressed), ("p256_ToUncompressed", sec1ToUncompressed),
+  ("pallas_FromCompressed", pastaFromCompressed), ("pallas_FromUncompressed", pastaFromUncompressed),
+  ("pallas_ToCompressed", pastaToCompressed), ("pallas_ToUncompressed", pastaToUncompressed),
+  ("vesta_FromCompressed", pastaFromCompressed), ("vesta_FromUncompressed", pastaFromUncompressed),
+  ("vesta_ToCompressed", pastaToCompressed), ("vesta_ToUncompressed", pastaToUncompressed),
+  ("ed25519_FromCompressed", edFromCompressed), ("ed25519_FromUncompressed", edFromUncompressed),
+  ("ed25519_ToCompressed", edToCompressed), ("ed25519_ToUncompressed", edToUncompressed),
+  ("ed25519_Fp_SetBytes", edFpSetBytes),
+  ("curve25519_FromCompressed", montFromCompressed), ("curve25519_FromUncompressed", montFromUncompressed),
+  ("curve25519_ToCompressed", montToCompressed), ("curve25519_ToUncompressed", montToUncompressed),
+  ("g1_FromCompressed", g1FromCompressed), ("g1_FromUncompressed", g1FromUncompressed),
+  ("g1_ToCompressed", g1ToCompressed), ("g1_ToUncompressed", g1ToUncompressed),
+  ("g2_FromCompressed", g2FromCompressed), ("g2_FromUncompressed", g2FromUncompressed),
+  ("g2_ToCompressed", g2ToCompressed), ("g2_ToUncompressed", g2ToUncompressed)]
+
+end Consts
 
 /-! ## instances over the executable fields -/
 
